@@ -3,7 +3,9 @@
 (*                                                                                       *)
 (* Abstract syntax (all of it crosses the TLC <-> Go boundary as JSON):                  *)
 (*   segment / host part : [l |-> "a"]  literal      [v |-> "x"] variable                *)
-(*                         (a server variable also carries its default: [v, d])          *)
+(*                         (a server variable also carries its default: [v, d], and --   *)
+(*                         optionally -- its enum, the declared set of values:           *)
+(*                         [v, d, enum |-> <<"443", "8443">>])                           *)
 (*                         [mx |-> <<[l |-> "v"], [v |-> "n"]>>]  mixed path segment:    *)
 (*                         variables next to literal text inside one segment ("v{n}")    *)
 (*   template  : [segs |-> <<segment>>, ops |-> <<[m |-> "GET", id |-> "t1GET"]>>        *)
@@ -102,7 +104,15 @@ BaseVarAt(s, i) == \E k \in 1..Len(BaseVars(s)) : BaseVars(s)[k].i = i
 BaseVarName(s, i) == BaseVars(s)[CHOOSE k \in 1..Len(BaseVars(s)) : BaseVars(s)[k].i = i].v
 BaseStrs(s) == [i \in 1..Len(s.base) |-> IF BaseVarAt(s, i) THEN "{" \o BaseVarName(s, i) \o "}" ELSE s.base[i]]
 
+(* the enum of a server variable is the declared set of its values; a variable without one is open-valued *)
+EnumOf(part) == IF "enum" \in DOMAIN part THEN part.enum ELSE <<>>
+EnumOK(part, x) == EnumOf(part) = <<>> \/ x = part.d \/ \E i \in 1..Len(part.enum) : part.enum[i] = x
+DeclaredVals(part) == IF IsVar(part) THEN {part.d} \cup {EnumOf(part)[i] : i \in 1..Len(EnumOf(part))} ELSE {part.l}
+DefaultPort(sc) == IF sc = "http" THEN "80" ELSE IF sc = "https" THEN "443" ELSE ""
+
 HasSchemeVar(s) == "sch" \in DOMAIN s
+SchemeOK(s, sc) == IF HasSchemeVar(s) THEN (s.sch.enum = <<>> \/ sc = s.scheme \/ \E i \in 1..Len(s.sch.enum) : s.sch.enum[i] = sc)
+                   ELSE sc = s.scheme
 SchemeSet(s) == IF HasSchemeVar(s) THEN {s.sch.enum[i] : i \in 1..Len(s.sch.enum)} \cup {s.scheme} ELSE {s.scheme}
 
 ServerURL(s) ==
@@ -147,23 +157,34 @@ Flat(doc) == [doc EXCEPT !.templates = [t \in 1..Len(doc.templates) |->
 (*  - a port other than the default of a server port variable (gorillamux documents      *)
 (*    that only the default matches, legacy treats the variable as a wildcard);          *)
 (*  - an explicit port against a server URL without a port.                              *)
-(*  - a scheme outside the enum of a scheme variable (the enum is the declared set of     *)
-(*    values; gorillamux matches exactly these, legacy treats the variable as a wildcard; *)
-(*    whether an undeclared value still is "under a declared server" is not said).        *)
-(* A host variable (no enum in this universe) matches any non-empty label, a base-path    *)
-(* variable any non-empty segment.                                                       *)
+(*    (with an enum this means: an enum value other than the default);                    *)
+(*  - a URL without a port against a server whose declared port (literal, default or enum *)
+(*    value) is the default port of the URL's scheme (80 / 443): the same origin, written *)
+(*    differently -- neither router normalises, the statement does not say.               *)
+(*  - a host label outside the enum of a host variable: by the OpenAPI reading it lies     *)
+(*    under no declared server, but the library's own suite (TestRouter of both router     *)
+(*    packages: d1 enum [example], https://domain0.domain1.com/... expected to be routed)  *)
+(*    pins the wildcard reading for host labels -- statement and suite disagree.           *)
+(* NOT open: a scheme or a port outside the enum of the variable in that position.  The    *)
+(* enum is the declared set of values, so such a URL lies under no declared server.        *)
+(* A variable without an enum is open-valued: a host variable matches any non-empty       *)
+(* label, a base-path variable any non-empty segment.                                     *)
 SrvMatchRest(s, u) ==
-   IF Len(u.host) # Len(s.host) THEN "no"
-   ELSE IF \E i \in 1..Len(s.host) : \/ IsLit(s.host[i]) /\ s.host[i].l # u.host[i]
-                                     \/ IsVar(s.host[i]) /\ u.host[i] = "" THEN "no"
-   ELSE IF Len(s.port) = 0 THEN (IF Len(u.port) = 0 THEN "yes" ELSE "open")
-   ELSE IF Len(u.port) = 0 THEN "no"
-   ELSE IF IsLit(s.port[1]) THEN (IF u.port[1] = s.port[1].l THEN "yes" ELSE "no")
-   ELSE IF u.port[1] = s.port[1].d THEN "yes" ELSE "open"
+   LET portM == IF Len(s.port) = 0 THEN (IF Len(u.port) = 0 THEN "yes" ELSE "open")
+                ELSE IF Len(u.port) = 0 THEN (IF DefaultPort(u.scheme) \in DeclaredVals(s.port[1]) THEN "open" ELSE "no")
+                ELSE IF IsLit(s.port[1]) THEN (IF u.port[1] = s.port[1].l THEN "yes" ELSE "no")
+                ELSE IF u.port[1] = s.port[1].d THEN "yes"
+                ELSE IF EnumOK(s.port[1], u.port[1]) THEN "open" ELSE "no"
+   IN IF Len(u.host) # Len(s.host) THEN "no"
+      ELSE IF \E i \in 1..Len(s.host) : \/ IsLit(s.host[i]) /\ s.host[i].l # u.host[i]
+                                        \/ IsVar(s.host[i]) /\ u.host[i] = "" THEN "no"
+      ELSE IF portM = "no" THEN "no"
+      ELSE IF \E i \in 1..Len(s.host) : IsVar(s.host[i]) /\ ~EnumOK(s.host[i], u.host[i]) THEN "open"
+      ELSE portM
 SrvMatch(s, u) ==
    IF ~s.abs THEN (IF u.abs /\ ~IsNone(s) THEN "open" ELSE "yes")
    ELSE IF ~u.abs THEN "no"
-   ELSE IF u.scheme \notin SchemeSet(s) THEN (IF HasSchemeVar(s) /\ SrvMatchRest(s, u) # "no" THEN "open" ELSE "no")
+   ELSE IF ~SchemeOK(s, u.scheme) THEN "no"
    ELSE SrvMatchRest(s, u)
 
 HasBase(s, u) == /\ Len(u.path) >= Len(s.base)
@@ -395,7 +416,8 @@ MuxRoute(s, t, req) ==
        schemeOK == ~s.abs \/ (IF u.abs THEN u.scheme ELSE "http") \in SchemeSet(s)      \* (a scheme variable: one mux Schemes matcher with all its values)
        hostOK == ~s.abs \/
                  /\ u.abs /\ Len(u.host) = Len(s.host)
-                 /\ \A i \in 1..Len(s.host) : IF IsLit(s.host[i]) THEN u.host[i] = s.host[i].l ELSE u.host[i] # ""
+                 /\ \A i \in 1..Len(s.host) : IF IsLit(s.host[i]) THEN u.host[i] = s.host[i].l
+                                                ELSE u.host[i] # "" /\ EnumOK(s.host[i], u.host[i])
                  /\ Len(s.port) = 0 \/ u.port = <<IF IsVar(s.port[1]) THEN s.port[1].d ELSE s.port[1].l>>
    IN IF ~(schemeOK /\ hostOK /\ pathOK) THEN "no"      \* (path last: only a URL on the server's host is matched against Cs)
       ELSE IF Declared(t, req.m) THEN "match" ELSE "method"
@@ -462,10 +484,10 @@ Std9 == {"GET", "POST", "PUT", "DELETE", "PATCH", "HEAD", "OPTIONS", "TRACE", "C
 
 LegacySrvMatch(s, u) ==
    IF ~s.abs THEN ~u.abs /\ HasBase(s, u)
-   ELSE /\ u.abs /\ (HasSchemeVar(s) \/ u.scheme = s.scheme) /\ Len(u.host) = Len(s.host)
-        /\ \A i \in 1..Len(s.host) : IsLit(s.host[i]) => u.host[i] = s.host[i].l
+   ELSE /\ u.abs /\ SchemeOK(s, u.scheme) /\ Len(u.host) = Len(s.host)
+        /\ \A i \in 1..Len(s.host) : IF IsLit(s.host[i]) THEN u.host[i] = s.host[i].l ELSE EnumOK(s.host[i], u.host[i])
         /\ IF Len(s.port) = 0 THEN Len(u.port) = 0
-           ELSE Len(u.port) = 1 /\ (IsLit(s.port[1]) => u.port[1] = s.port[1].l)
+           ELSE Len(u.port) = 1 /\ (IF IsLit(s.port[1]) THEN u.port[1] = s.port[1].l ELSE EnumOK(s.port[1], u.port[1]))
         /\ HasBase(s, u)
 
 RECURSIVE StripSlashes(_)
@@ -534,6 +556,29 @@ LegacyObsH(doc, req0, nonEmptyVars, keepSlash, methodGuard, wirePath, seesHost) 
 LegacyObs(doc, req, nonEmptyVars, keepSlash, methodGuard, wirePath) ==
    LegacyObsH(doc, req, nonEmptyVars, keepSlash, methodGuard, wirePath, TRUE)
 
+(* Server-variable enums.  MuxRoute and LegacySrvMatch above honour them (a value outside *)
+(* the enum does not match): the design the contract asks for.  The code does not, except *)
+(* for the scheme under gorillamux (permutePart): gorillamux turns a host variable into a  *)
+(* wildcard label (and matches only the default of a port variable anyway), the legacy     *)
+(* router treats every server variable as a wildcard.  The models of the code as it is are *)
+(* the same operators on the document with those enums erased (a variable without an enum  *)
+(* is open-valued): NoEnums(doc, keepScheme).                                              *)
+NoEnumP(part) == IF IsVar(part) THEN [f \in (DOMAIN part \ {"enum"}) |-> part[f]] ELSE part
+NoEnumS(s, keepScheme) ==
+   IF ~s.abs THEN s
+   ELSE LET s1 == [s EXCEPT !.host = [i \in 1..Len(s.host) |-> NoEnumP(s.host[i])],
+                            !.port = [i \in 1..Len(s.port) |-> NoEnumP(s.port[i])]]
+        IN IF HasSchemeVar(s) /\ ~keepScheme THEN [s1 EXCEPT !.sch.enum = <<>>] ELSE s1
+NoEnums(doc, keepScheme) ==
+   [templates |-> [t \in 1..Len(doc.templates) |->
+                     IF HasOwnServers(doc.templates[t])
+                     THEN [doc.templates[t] EXCEPT !.servers = [i \in 1..Len(doc.templates[t].servers) |->
+                                                                  NoEnumS(doc.templates[t].servers[i], keepScheme)]]
+                     ELSE doc.templates[t]],
+    servers |-> [i \in 1..Len(doc.servers) |-> NoEnumS(doc.servers[i], keepScheme)]]
+MuxSees(doc) == NoEnums(doc, TRUE)
+LegacySees2(doc) == NoEnums(doc, FALSE)
+
 (* the models of the code as it is now: the switches of repaired defects are on                 *)
 (*   legacy methodGuard (F-C09-3, unknown-method panic) and mux localServers (F-C09-5, path-level *)
 (*   servers leak) were repaired by fix: commits in /repo; so was legacy wirePath (F-C09-7: the   *)
@@ -542,8 +587,8 @@ LegacyObs(doc, req, nonEmptyVars, keepSlash, methodGuard, wirePath) ==
 (*   Request.Host / Request.TLS) and mux portClobbers (F-C09-9, 55b24e0: a port variable no       *)
 (*   longer overwrites a path parameter of its name; now FALSE).  The old behaviours stay          *)
 (*   expressible through the switches, as refuted variants.                                        *)
-CurLegacyObs(doc, req) == LegacyObsH(doc, req, FALSE, FALSE, TRUE, TRUE, TRUE)
-CurMuxObs(doc, req) == MuxObsP(doc, req, FALSE, TRUE, FALSE)
+CurLegacyObs(doc, req) == LegacyObsH(LegacySees2(doc), req, FALSE, FALSE, TRUE, TRUE, TRUE)
+CurMuxObs(doc, req) == MuxObsP(MuxSees(doc), req, FALSE, TRUE, FALSE)
 CurMuxBuilds(doc) == MuxBuilds(doc, TRUE, FALSE)
 
 (* what of an observation the L2 models predict (the rest is left to L1) *)
